@@ -178,6 +178,38 @@ func (x *Exec) ensureInit(pkg *ssa.Package) {
 	}()
 	x.steps = saveSteps
 	x.initing = wasInit
+	if pkg.Pkg.Path() == "crypto" {
+		x.registerStdHashes(pkg)
+	}
+}
+
+// registerStdHashes mirrors the crypto.RegisterHash calls made by the init
+// functions of the standard hash packages (package inits run lazily here, so a
+// registration made by another package's init would otherwise be missed).
+func (x *Exec) registerStdHashes(cr *ssa.Package) {
+	g, ok := cr.Members["hashes"].(*ssa.Global)
+	if !ok {
+		return
+	}
+	sl, ok := x.globals[g].v.(Slice)
+	if !ok {
+		return
+	}
+	reg := func(idx int, pkgPath, fn string) {
+		p := x.prog.ImportedPackage(pkgPath)
+		if p == nil || idx >= sl.len {
+			return
+		}
+		if f := p.Func(fn); f != nil {
+			sl.set(idx, &Closure{fn: f})
+		}
+	}
+	reg(2, "crypto/md5", "New")
+	reg(3, "crypto/sha1", "New")
+	reg(4, "crypto/sha256", "New224")
+	reg(5, "crypto/sha256", "New")
+	reg(6, "crypto/sha512", "New384")
+	reg(7, "crypto/sha512", "New")
 }
 
 // ---- calls ----
@@ -222,6 +254,12 @@ func (x *Exec) callFunction(fn *ssa.Function, args []Value, env []Value, caller 
 	if x.initing {
 		if in, ok := initCuts[key]; ok {
 			return in(x, caller, fn, args)
+		}
+		// a package initialiser calling the initialisers of its imports: run each
+		// one isolated (its own failure handling and done flag)
+		if fn.Pkg != nil && fn.Name() == "init" && fn == fn.Pkg.Func("init") && caller != nil {
+			x.ensureInit(fn.Pkg)
+			return nil
 		}
 	}
 	if fn.Blocks == nil {
